@@ -10,6 +10,7 @@
 From Coq Require Import ZArith List Permutation.
 From Batchie Require Import Lib.Sexp Model.Policy Proofs.C16Policy Proofs.C16Hist Proofs.C16Select.
 From Batchie Require Import Generated.SrcPolicy Proofs.C16Source.
+From Batchie Require Import Generated.SrcScoringPolicy Proofs.C16SourceSelect.
 Import ListNotations.
 Open Scope Z_scope.
 
@@ -22,6 +23,36 @@ Theorem C16_model_is_source : forall k batch remaining,
   src_filter_eligible_plates k batch remaining = filter_eligible k batch remaining.
 Proof. exact src_filter_eligible_is_model. Qed.
 Print Assumptions C16_model_is_source.
+
+(* The same for the caller: `src_select_next_plate_k` is the whole function batchie.scoring.main.select_next_plate of
+   /repo's current working tree, re-translated on every run in this file's vocabulary (harness/src_functions.py
+   C16_SELECT -> Generated/SrcScoringPolicy.v): a Plate object is a `plate`, `obs` its is_observed attribute, the
+   policy object KPerSamplePlatePolicy(k) is `Some k` and its method is filter_eligible (= the translated method by
+   C16_model_is_source), the ScoresHolder is the list of its slots.  Its default arguments, the two comprehensions
+   that build the policy's arguments (= select_args), the sort, the early `return` of None and the minimum-score
+   choice equal the model select_next for ALL inputs; the code returns the Plate screen.get_plate(id) after reading
+   its name, the model the eligible ids and the chosen id. *)
+Theorem C16_model_is_source_select_next_plate : forall (k : Z) (obs : plate -> bool) (scores : list (Z * Z))
+    (ps : list plate) (batch : option (list Z)) (rng : option rng_t),
+  src_select_next_plate_k obs scores ps (Some k) batch rng
+  = dor r <- select_next k (map (fun p => (p, obs p)) ps) scores (match batch with Some b => b | None => [] end);
+    match snd r with
+    | None => Ok None
+    | Some i => dor _ <- plate_name (get_plate ps i); Ok (Some (get_plate ps i))
+    end.
+Proof. exact src_select_next_plate_k_is_model. Qed.
+Print Assumptions C16_model_is_source_select_next_plate.
+
+(* with distinct plate ids (screen.plates is built from np.unique) the name lookup cannot fail: the code returns
+   exactly the plate the model chose *)
+Theorem C16_model_is_source_select_next_plate_distinct_ids : forall (k : Z) (obs : plate -> bool)
+    (scores : list (Z * Z)) (ps : list plate) (batch : option (list Z)) (rng : option rng_t),
+  NoDup (map plate_id ps) ->
+  src_select_next_plate_k obs scores ps (Some k) batch rng
+  = dor r <- select_next k (map (fun p => (p, obs p)) ps) scores (match batch with Some b => b | None => [] end);
+    Ok (option_map (get_plate ps) (snd r)).
+Proof. exact src_select_next_plate_k_distinct_ids. Qed.
+Print Assumptions C16_model_is_source_select_next_plate_distinct_ids.
 
 (* allowed plates = remaining plates restricted by some predicate: a subset, in the same order (every state) *)
 Theorem C16_eligible_subset : forall k b r el,
